@@ -223,7 +223,9 @@ def _play(mid, meta, delays, overs, start=1000.0):
     mf.time = FakeTime(clock)
     try:
         delays = list(delays)
-        for m in mid.play(meta_messages=meta, now=clock.now):
+        # the flag is given as a bool or as the equal int (round 13: `meta_messages is True`): a flag is a truth value
+        flag = meta if len(delays) % 2 == 0 else int(bool(meta))
+        for m in mid.play(meta_messages=flag, now=clock.now):
             events.append((clock.t, m))
             clock.t += delays.pop(0) if delays else 0.0
     finally:
